@@ -11,15 +11,18 @@ import (
 	corev1 "k8s.io/api/core/v1"
 	extv1 "k8s.io/apiextensions-apiserver/pkg/apis/apiextensions/v1"
 	metav1 "k8s.io/apimachinery/pkg/apis/meta/v1"
+	"k8s.io/apimachinery/pkg/runtime"
 	"k8s.io/apimachinery/pkg/types"
 	"k8s.io/utils/ptr"
 	"sigs.k8s.io/controller-runtime/pkg/reconcile"
 
 	"github.com/crossplane/crossplane-runtime/pkg/feature"
 
+	pkgmetav1 "github.com/crossplane/crossplane/apis/pkg/meta/v1"
 	v1 "github.com/crossplane/crossplane/apis/pkg/v1"
 	"github.com/crossplane/crossplane/apis/pkg/v1beta1"
 	"github.com/crossplane/crossplane/internal/dag"
+	"github.com/crossplane/crossplane/internal/xpkg"
 	zz "github.com/crossplane/crossplane/internal/zzverif"
 	"github.com/crossplane/crossplane/internal/zzverif/kube"
 )
@@ -108,4 +111,62 @@ func HarnessC16Deactivate() {
 		zz.Cover("retried")
 	}
 	zz.Observe("settled", settled)
+}
+
+// HarnessC16UnknownState: a revision whose desired state is neither Active
+// nor Inactive (the field is a free string: hand-edited, empty, wrongly
+// cased). Such a revision is not active: a reconcile creates none of its
+// package's objects and makes it the controller of none.
+//
+//gosym:harness
+//gosym:cover objects-absent objects-uncontrolled
+func HarnessC16UnknownState() {
+	s := kube.New()
+	s.Register(&v1.ProviderRevision{}, &v1.ProviderRevisionList{}, "pkg.crossplane.io", "ProviderRevision")
+	s.Register(&v1beta1.Lock{}, &v1beta1.LockList{}, "pkg.crossplane.io", "Lock")
+	s.Register(&extv1.CustomResourceDefinition{}, &extv1.CustomResourceDefinitionList{}, zzCRDGroup, zzCRDKind)
+	pr := zzRevision("rev-old", zzOldUID)
+	pr.Finalizers = []string{finalizer}
+	pr.SetSource("xpkg.example.org/org/pkg:v1.0.0")
+	state := zz.Str("revision.desiredState")
+	zz.Assume(state != string(v1.PackageRevisionActive))
+	zz.Assume(state != string(v1.PackageRevisionInactive))
+	pr.SetDesiredState(v1.PackageRevisionDesiredState(state))
+	const n = 2
+	exist := zz.Bool("objects.exist")
+	if exist {
+		zz.Cover("objects-uncontrolled")
+		for i := 0; i < n; i++ {
+			s.Put(zzCRD(zzCRDNames[i]))
+		}
+	} else {
+		zz.Cover("objects-absent")
+	}
+	s.Put(pr)
+	pkg := zzMakePackage([]runtime.Object{&pkgmetav1.Provider{ObjectMeta: metav1.ObjectMeta{Name: "m"}}},
+		[]runtime.Object{zzCRD(zzCRDNames[0]), zzCRD(zzCRDNames[1])})
+	r := NewReconciler(&zzMgr15{c: s},
+		WithNewPackageRevisionFn(func() v1.PackageRevision { return &v1.ProviderRevision{} }),
+		WithCache(zzCache{}),
+		WithParser(zzParser{pkg: pkg}),
+		WithLinter(xpkg.NewProviderLinter()),
+		WithVersioner(zzVersioner{in: true}),
+		WithEstablisher(NewAPIEstablisher(s, "crossplane-system", 10)),
+		WithDependencyManager(zzLock{}),
+		WithConfigStore(zzCfg{}),
+		WithFeatureFlags(&feature.Flags{}),
+	)
+	_, _ = r.Reconcile(context.Background(), reconcile.Request{NamespacedName: types.NamespacedName{Name: "rev-old"}})
+	for _, c := range s.Writes(false) {
+		if c.Kind == zzCRDKind {
+			zz.Assert("only-an-active-revision-creates-objects", c.Verb != kube.VerbCreate)
+		}
+	}
+	for i := 0; i < n; i++ {
+		doc := s.Doc(zzCRDGroup, zzCRDKind, "", zzCRDNames[i])
+		if doc == nil {
+			continue
+		}
+		zz.Assert("only-an-active-revision-becomes-controller", kube.ControllerUID(doc) != zzOldUID)
+	}
 }
